@@ -17,10 +17,11 @@ import (
 // four notations, register moves, asynchronous I/O.
 type c05Params struct {
 	seed, rsize, nregs, nin, nout, nlines, nmacros int
-	entryLater                                     bool // the entry label is not on the first instruction
-	doubleMacro                                    bool // two macro invocations in a row
-	entryDirAt                                     int  // number of body lines written before the entry directive (0: it is the first line)
-	withData                                       bool // the CP also has a ROM data section (not read by the code)
+	entryLater                                     bool   // the entry label is not on the first instruction
+	doubleMacro                                    bool   // two macro invocations in a row
+	entryDirAt                                     int    // number of body lines written before the entry directive (0: it is the first line)
+	withData                                       bool   // the CP also has a ROM data section (not read by the code)
+	iomode                                         string // "": not mentioned; two letters: where (g global, s section + the opposite global) and what (s sync, a async)
 }
 
 func c05Source(p c05Params) string {
@@ -87,6 +88,9 @@ func c05Source(p c05Params) string {
 	for i := 0; i < p.nin; i++ {
 		body = append(body, fmt.Sprintf("i2r %s, i%d", reg(), i))
 	}
+	if p.iomode != "" && p.nin > 0 {
+		body = append(body, fmt.Sprintf("mov %s, i%d", reg(), r.Intn(p.nin))) // at least one read whose opcode the I/O mode decides
+	}
 	macroPut := false
 	for len(body) < nl-p.nout-1 {
 		switch k := r.Intn(10); {
@@ -100,6 +104,8 @@ func c05Source(p c05Params) string {
 			}
 		case k == 2 && p.nout > 0:
 			body = append(body, fmt.Sprintf("r2o %s, o%d", reg(), r.Intn(p.nout)))
+		case k == 3 && p.nin > 0 && p.iomode != "":
+			body = append(body, fmt.Sprintf("mov %s, i%d", reg(), r.Intn(p.nin))) // i2r or i2rw, by the I/O mode in force
 		case k == 3 && p.nin > 0:
 			body = append(body, fmt.Sprintf("i2r %s, i%d", reg(), r.Intn(p.nin)))
 		default:
@@ -110,7 +116,12 @@ func c05Source(p c05Params) string {
 		body = append(body, fmt.Sprintf("r2o r%d, o%d", i%p.nregs, i))
 	}
 	body = append(body, "j "+labs[r.Intn(len(labs))])
-	sb.WriteString("%section prog .romtext\n")
+	word := map[byte]string{'s': "sync", 'a': "async"}
+	if len(p.iomode) == 2 && p.iomode[0] == 's' {
+		sb.WriteString("%section prog .romtext iomode:" + word[p.iomode[1]] + "\n")
+	} else {
+		sb.WriteString("%section prog .romtext\n")
+	}
 	for i, l := range body {
 		if i == p.entryDirAt {
 			sb.WriteString("        entry _start\n") // the directive may stand anywhere in the section
@@ -134,6 +145,13 @@ func c05Source(p c05Params) string {
 		fmt.Fprintf(&sb, "%%meta ioatt  out%d  cp: cpu, index:%d, type:output\n%%meta ioatt  out%d  cp: bm, index:%d, type:output\n", i, i, i, i)
 	}
 	fmt.Fprintf(&sb, "%%meta bmdef  global registersize:%d\n", p.rsize)
+	if len(p.iomode) == 2 {
+		g := p.iomode[1]
+		if p.iomode[0] == 's' { // the section overrides the opposite global default
+			g = map[byte]byte{'s': 'a', 'a': 's'}[g]
+		}
+		fmt.Fprintf(&sb, "%%meta bmdef  global iomode: %s\n", word[g])
+	}
 	return sb.String()
 }
 
@@ -170,6 +188,9 @@ func c05ParamsFor(i int) c05Params {
 		p.entryDirAt = 1 + pr.Intn(3)
 	}
 	p.withData = i%4 == 1
+	if i%3 == 2 && p.nin > 0 {
+		p.iomode = []string{"gs", "ss", "sa", "ga"}[(i/3)%4]
+	}
 	return p
 }
 
@@ -196,8 +217,8 @@ func C05(tier string) int {
 		f := filepath.Join(work, fmt.Sprintf("s%d.basm", i))
 		os.WriteFile(f, []byte(text), 0o644)
 		out, err := Native("basm", f)
-		name := fmt.Sprintf("basm source #%d (Rsize=%d, %d registers, %d inputs, %d outputs, %d lines, %d macros, entry on first instruction=%v, consecutive macro calls=%v, entry directive after %d lines, data section=%v)",
-			i, p.rsize, p.nregs, p.nin, p.nout, p.nlines, p.nmacros, !p.entryLater, p.doubleMacro, p.entryDirAt, p.withData)
+		name := fmt.Sprintf("basm source #%d (Rsize=%d, %d registers, %d inputs, %d outputs, %d lines, %d macros, entry on first instruction=%v, consecutive macro calls=%v, entry directive after %d lines, data section=%v, iomode=%q)",
+			i, p.rsize, p.nregs, p.nin, p.nout, p.nlines, p.nmacros, !p.entryLater, p.doubleMacro, p.entryDirAt, p.withData, p.iomode)
 		if err != nil {
 			errs = append(errs, name+": "+err.Error())
 			continue
@@ -272,7 +293,7 @@ func C05(tier string) int {
 		Configs:  FilterConfigs(cfgs),
 		Assumptions: []string{
 			"translation validation per source: the real basm front-end (parser, all passes, matcher/chooser, requirement inference, Assembler2BondMachine) is RUN NATIVELY on each source of a generated family - it is not encoded (maps of interfaces, regexp-driven passes, a requirement engine of goroutines) - and the solver decides, per emitted machine, that simulating it (bondmachine.VM.Step, procbuilder.VM.Step and the opcodes' Simulate, executed symbolically) yields tick by tick the external outputs, and at the horizon the registers, of a direct interpretation of the source text, FOR ALL values of the external inputs. The program space is sampled; the input space is quantified",
-			"source family: one CP; romtext section; labels on their own lines (2-4 plus the entry label, several labels may share a line); entry directive; forward/backward j and jz; 0-2 macros without arguments, invoked 0 or more times; mov with decimal/0x/0b/0d literals below 32 (larger ones are rejected since the chooser takes rsets5), the real rset next to its mov alias, mov register-register, inc/dec/add/clr/nop, i2r/r2o; register sizes 8 and 16; 2-4 registers, 0-2 inputs, 1-2 outputs; one source in six has its entry label on a later instruction, one in six has two macro calls in a row, one in five has its entry directive after 1-3 instructions, one in four also has a ROM data section (a one-cell and a three-cell variable, not read by the code)",
+			"source family: one CP; romtext section; labels on their own lines (2-4 plus the entry label, several labels may share a line); entry directive; forward/backward j and jz; 0-2 macros without arguments, invoked 0 or more times; mov with decimal/0x/0b/0d literals below 32 (larger ones are rejected since the chooser takes rsets5), the real rset next to its mov alias, mov register-register, inc/dec/add/clr/nop, i2r/r2o; register sizes 8 and 16; 2-4 registers, 0-2 inputs, 1-2 outputs; one source in six has its entry label on a later instruction, one in six has two macro calls in a row, one in five has its entry directive after 1-3 instructions, one in four also has a ROM data section (a one-cell and a three-cell variable, not read by the code), one in three of those with inputs reads them with mov under a global or section I/O mode (the emitted opcode - i2rw exactly when the mode in force is sync - is an obligation)",
 			"reference: the documented meaning of the source form (a label denotes the instruction after it; execution starts at the entry label; a macro call stands for its body; mov loads the value the literal denotes or copies a register; one instruction per tick); the per-instruction effect is the ISA's (inc/dec/add wrap at the register size)",
 			"environment: external inputs constant and valid from tick 0, outputs acknowledged at once; horizon 2*lines+6 ticks from reset (registers zero)",
 			"second family: two CPs joined by two handshaked links whose output and input indices differ (all four index pairings, consuming endpoint declared first or second), straight-line programs that park in a self-loop, one symbolic external input; compared at the horizon (60 ticks) with a reference in which every CP's source is interpreted on its own and a link carries the value its producer wrote to its consumer: registers of both CPs and the external output",
